@@ -50,7 +50,7 @@ def fn_mentions(fn):
 
 def build(fx):
     g = {}
-    for name, fn in fx.fns.items():
+    for name, fn in getattr(fx, "orig", fx.fns).items():
         g[name] = set(m for m in fn_mentions(fn) if m in fx.fns and m != name or (m == name and m in fx.fns))
     return g
 
